@@ -667,11 +667,11 @@ where
     W: CellWrite,
 {
     fn write(&mut self, buf: &[u8]) -> std::io::Result<usize> {
+        // NOTE: all bytes must go through the decoder even if we are out of space,
+        //       otherwise decoder state will depend on how writes are split
         let mut cur = std::io::Cursor::new(buf);
         while let Some(ch) = self.decoder.decode(&mut cur)? {
-            if !self.parent.put_char(ch) {
-                return Ok(buf.len());
-            }
+            self.parent.put_char(ch);
         }
         Ok(cur.position() as usize)
     }
@@ -946,11 +946,11 @@ impl CellWrite for TerminalWriter<'_> {
 
 impl std::io::Write for TerminalWriter<'_> {
     fn write(&mut self, buf: &[u8]) -> std::io::Result<usize> {
+        // NOTE: all bytes must go through the decoder even if we are out of space,
+        //       otherwise decoder state will depend on how writes are split
         let mut cur = std::io::Cursor::new(buf);
         while let Some(ch) = self.decoder.decode(&mut cur)? {
-            if !self.put_char(ch) {
-                return Ok(buf.len());
-            }
+            self.put_char(ch);
         }
         Ok(cur.position() as usize)
     }
